@@ -158,6 +158,34 @@ fn plan_only_block<T: Real>(pk: PK, lo: usize, hi: usize, rep: &mut Report, cens
     }
 }
 
+/// one planner, every n in 0..=nmax in ascending or descending order, both directions
+fn shared_sweep<T: Real>(pk: PK, nmax: usize, ascending: bool, rep: &mut Report) {
+    let mut pl = match AnyPlanner::<T>::new(pk) {
+        Some(p) => p,
+        None => return,
+    };
+    let order: Vec<usize> = if ascending { (0..=nmax).collect() } else { (0..=nmax).rev().collect() };
+    for n in order {
+        for d in if n % 2 == 0 { [FftDirection::Forward, FftDirection::Inverse] } else { [FftDirection::Inverse, FftDirection::Forward] } {
+            let r = catch_unwind(AssertUnwindSafe(|| pl.plan(n, d)));
+            rep.evaluations += 1;
+            rep.transitions += 1;
+            if n >= 2 {
+                rep.distinct_nontrivial += 1;
+            }
+            let k = format!("{}|sweep={}", key(pk, T::NAME, d, n, "shared_planner"), if ascending { "ascending" } else { "descending" });
+            match r {
+                Err(e) => rep.violate(k, format!("planning panicked on a planner that had already planned the {} lengths: {}", if ascending { "smaller" } else { "larger" }, panic_text(&e)), Json::Null),
+                Ok(f) => {
+                    if f.len() != n || f.fft_direction() != d {
+                        rep.violate(k, format!("a planner that had already planned the {} lengths returned (len {}, {}) for the request (len {}, {})", if ascending { "smaller" } else { "larger" }, f.len(), dir_name(f.fft_direction()), n, dir_name(d)), Json::Null);
+                    }
+                }
+            }
+        }
+    }
+}
+
 pub fn run(ctx: &Ctx) -> i32 {
     let t = ctx.tier;
     if let Some(r) = &ctx.replay {
@@ -168,7 +196,14 @@ pub fn run(ctx: &Ctx) -> i32 {
         let mut rep = Report::new();
         for _ in 0..2 {
             let mut r1 = Report::new();
-            if m.get("what").map(|w| w.starts_with("plan_only")).unwrap_or(false) {
+            if m.get("what").map(|w| w == "shared_planner").unwrap_or(false) {
+                let asc = m.get("sweep").map(|s| s == "ascending").unwrap_or(true);
+                if m.get("T").map(|s| s.as_str()) == Some("f32") {
+                    shared_sweep::<f32>(pk, if asc { n } else { 8192 }, asc, &mut r1);
+                } else {
+                    shared_sweep::<f64>(pk, if asc { n } else { 8192 }, asc, &mut r1);
+                }
+            } else if m.get("what").map(|w| w.starts_with("plan_only")).unwrap_or(false) {
                 let (mut c, mut b, mut md) = (BTreeMap::new(), BTreeSet::new(), 0);
                 if m.get("T").map(|s| s.as_str()) == Some("f32") {
                     plan_only_block::<f32>(pk, n, n + 1, &mut r1, &mut c, &mut b, &mut md);
@@ -215,6 +250,28 @@ pub fn run(ctx: &Ctx) -> i32 {
         r
     });
     for p in parts.into_iter().rev() {
+        rep.merge(p);
+    }
+    // ---- part A'': ONE planner for a whole sweep (ascending, descending): len()/direction must still echo every request
+    let shared_n = t.pick(2048, 8192);
+    let mut sjobs: Vec<(PK, bool, bool)> = Vec::new();
+    for pk in PK::DISTINCT {
+        for is32 in [true, false] {
+            for asc in [true, false] {
+                sjobs.push((pk, is32, asc));
+            }
+        }
+    }
+    let parts = par_map(&sjobs, |_, &(pk, is32, asc)| {
+        let mut r = Report::new();
+        if is32 {
+            shared_sweep::<f32>(pk, shared_n, asc, &mut r);
+        } else {
+            shared_sweep::<f64>(pk, shared_n, asc, &mut r);
+        }
+        r
+    });
+    for p in parts {
         rep.merge(p);
     }
     // ---- part B: plan-only sweep
@@ -281,7 +338,8 @@ pub fn run(ctx: &Ctx) -> i32 {
     rep.sample(Json::Str(key(PK::Scalar, "f64", FftDirection::Inverse, nmax, "plan_conv")));
     rep.sample(Json::Str(key(PK::Sse, "f64", FftDirection::Inverse, pmax - 1, "plan_only")));
     rep.rule = format!(
-        "construction: planners {{auto,scalar,sse,avx}} x {{f32,f64}} x {{fwd,inv}} x {{plan_fft, plan_fft_forward/inverse}} x every n in 0..={nmax} on a fresh planner (len() and fft_direction() must echo the request; n=0 accepts the empty buffer through all 4 entry points; n=1 is the identity on 5 values through all 4 entry points), plus {pl} computed pool lengths up to {ph}; plan-only (hook H4, nothing constructed): {{scalar,sse,avx}} x {{f32,f64}} x every n < {pmax}, following Rader (p-1) and Bluestein (inner) sub-plans, every plan must parse and multiply out to n and every AVX butterfly base named by a plan is then constructed once. Non-trivial: n >= 2.",
+        "shared-planner sweeps: one planner per (scalar/sse/avx, f32/f64) asked for every n in 0..={sh} in ascending and in descending order, both directions; construction: planners {{auto,scalar,sse,avx}} x {{f32,f64}} x {{fwd,inv}} x {{plan_fft, plan_fft_forward/inverse}} x every n in 0..={nmax} on a fresh planner (len() and fft_direction() must echo the request; n=0 accepts the empty buffer through all 4 entry points; n=1 is the identity on 5 values through all 4 entry points), plus {pl} computed pool lengths up to {ph}; plan-only (hook H4, nothing constructed): {{scalar,sse,avx}} x {{f32,f64}} x every n < {pmax}, following Rader (p-1) and Bluestein (inner) sub-plans, every plan must parse and multiply out to n and every AVX butterfly base named by a plan is then constructed once. Non-trivial: n >= 2.",
+        sh = shared_n,
         nmax = nmax,
         pl = pool.len(),
         ph = t.pick(1 << 18, 1 << 21),
